@@ -109,8 +109,16 @@ func NewType1Font(fontDict core.Dict, resolver func(core.IndirectRef) (core.Obje
 func (t1 *Type1Font) parseEncoding(fontDict core.Dict, resolver func(core.IndirectRef) (core.Object, error)) error {
 	encodingObj := fontDict.Get("Encoding")
 	if encodingObj == nil {
-		// Use default encoding
-		t1.Encoding = "StandardEncoding"
+		// No /Encoding: the font's built-in encoding applies. Symbol and ZapfDingbats
+		// have their own; every other Type1 font defaults to StandardEncoding
+		switch t1.BaseFont {
+		case "Symbol":
+			t1.Encoding = "SymbolEncoding"
+		case "ZapfDingbats":
+			t1.Encoding = "ZapfDingbatsEncoding"
+		default:
+			t1.Encoding = "StandardEncoding"
+		}
 		return nil
 	}
 
